@@ -497,6 +497,47 @@ pub fn run(tier: Tier) -> Run {
         let y = xs::enumerate(&idx_small, tier.pick(7, 9), &fs);
         (x, y)
     };
+    // ---- (a) OpExtInst with every number 0..=210 (+ extremes), behind an import of each of six set names, in each of the
+    //      three loader states; (b) every string of the content zoo in every string-carrying module-level opcode in front of a
+    //      body-less and of a bodied function: where an instruction goes depends on its opcode and the loader state alone
+    {
+        use crate::model::Arg;
+        let mut seqs: Vec<Vec<Inst>> = vec![];
+        for name in ["GLSL.std.450", "OpenCL.std", "NonSemantic.Shader.DebugInfo.100", "NonSemantic.DebugPrintf", "DebugInfo", "x"] {
+            let imp = Inst::new("ExtInstImport", None, Some(5), vec![Arg::Str(name.to_string())]);
+            for n in (0..=210u32).chain([255, 256, 1000, 0xFFFF_FFFF]) {
+                let x = Inst::new("ExtInst", Some(50), Some(900), vec![Arg::IdRef(5), Arg::ExtInstNo(n), Arg::IdRef(6)]);
+                seqs.push(vec![imp.clone(), x.clone()]);
+                seqs.push(vec![imp.clone(), rep_inst("Function", 1), x.clone()]);
+                seqs.push(vec![imp.clone(), rep_inst("Function", 1), rep_inst("Label", 2), x.clone(), rep_inst("Return", 3), rep_inst("FunctionEnd", 4)]);
+                seqs.push(vec![rep_inst("Function", 1), x.clone()]);
+            }
+        }
+        let zoo = universe::string_zoo();
+        for gi in &g.insts {
+            if !matches!(class_of(&gi.name), Class::Module(_)) || placement_dont_care(&gi.name) || !gi.value_operands().iter().any(|(k, _)| k == "LiteralString") {
+                continue;
+            }
+            for t in &zoo {
+                let mut i = universe::minimal(gi);
+                if i.rid.is_some() {
+                    i.rid = Some(900);
+                }
+                for a in i.args.iter_mut() {
+                    if let Arg::Str(x) = a {
+                        *x = t.clone();
+                    }
+                }
+                seqs.push(vec![i.clone(), rep_inst("Function", 1), rep_inst("FunctionEnd", 2)]);
+                seqs.push(vec![i.clone(), rep_inst("Function", 1), rep_inst("Label", 2), rep_inst("Return", 3), rep_inst("FunctionEnd", 4), rep_inst("Function", 5), rep_inst("FunctionEnd", 6)]);
+            }
+        }
+        let steps: Vec<Step> = seqs.par_iter().map(|h| run_seq(h, false)).collect();
+        run.outcome("ext_inst_numbers_and_string_contents", seqs.len() as u64);
+        for st in steps {
+            run.add_all(st.viols);
+        }
+    }
     run.add_all(fstruct.0.viols.clone());
     run.add_all(fstruct.1.viols.clone());
     run.outcome("function_structure_sequences", fstruct.0.histories_replayed + fstruct.1.histories_replayed);
